@@ -1732,8 +1732,12 @@ impl<'a, R: FileManager> FrontendCtx<'a, R> {
                                 DiagnosticInfoMessage::AnyhowError(e.to_string()),
                             )
                         })?;
-                        let res = self
-                            .semtype_to_runtype(subtracted_ty, &mut ctx, anchor)?
+                        let res = self.semtype_to_runtype(subtracted_ty, &mut ctx, anchor)?;
+                        // the helper definitions that were just registered must be resolvable
+                        let validators_vec = self.validators_vec();
+                        let validators_reference_vec: Vec<&NamedSchema> =
+                            validators_vec.iter().collect();
+                        let res = res
                             .remove_nots_of_intersections_and_empty_of_union(
                                 &validators_reference_vec,
                                 &mut ctx,
